@@ -82,6 +82,19 @@ def _():
             ('=>', [defT, T.Eclo_least(V, e, S, Tt), Select(T.Eclo(V, e, S), y)], Select(Tt, y))]
 
 
+def regexp_ind(P):
+    """structural induction on regular expressions"""
+    R = Regexp; a = fresh_z('a', Atom); r, s_ = fresh_z('r', R), fresh_z('s', R)
+    return [('zero', [], P(R.Zero)), ('one', [], P(R.One)), ('sym', [], P(R.Sym(a))), ('iter', [P(r)], P(R.Iter(r))),
+            ('sum', [P(r), P(s_)], P(R.Sum(r, s_))), ('concat', [P(r), P(s_)], P(R.Concat(r, s_)))]
+
+
+@proof('regexp', 'rnodes-pos')
+def _(): return regexp_ind(lambda r: T.rnodes(r) >= 1)
+@proof('regexp', 'rsize-nonneg')
+def _(): return regexp_ind(lambda r: T.rsize(r) >= 0)
+
+
 def int_ind(P, lo=0):
     """induction on an integer >= lo: P(lo) and (j >= lo and P(j)) => P(j+1)"""
     j = fresh_z('j', z3.IntSort())
